@@ -62,7 +62,8 @@ pub struct Scenario {
     #[serde(default)]
     pub second: Option<Second>,
     /// how the directory is named when it is mounted: 0 by its real path, 1 through a symbolic link that sits two levels
-    /// deeper than its target, 2 through a symbolic link one level higher, 3 by a path with a `..` component
+    /// deeper than its target, 2 through a symbolic link one level higher, 3 by a path with a `..` component, 4 by its real
+    /// path, which has a dot-prefixed ancestor
     /// (state of the file system at start-up; the files served must be the same)
     #[serde(default)]
     pub mount_via: u8,
@@ -221,7 +222,7 @@ pub fn generate(_cfg: &RunCfg, _out: &mut Outcome) -> Scenario {
         let path = if path.is_empty() { "/".to_string() } else { path };
         reqs.push(Req { method: method.into(), path, kind: kind.into(), mutate_before });
     }
-    Scenario { files, outside, mount, omit, reqs, second, mount_via: t::weighted(&[6, 1, 1, 1]) as u8 }
+    Scenario { files, outside, mount, omit, reqs, second, mount_via: t::weighted(&[6, 1, 1, 1, 1]) as u8 }
 }
 
 pub fn run(cfg: &RunCfg, direct: Option<&serde_json::Value>) -> Outcome {
@@ -394,6 +395,15 @@ fn execute(sc: &Scenario, out: &mut Outcome) {
         3 => {
             let _ = std::fs::create_dir_all(base.join("work"));
             base.join("work").join("..").join("www")
+        }
+        4 => {
+            // the directory lives under a dot-prefixed ancestor (~/.local/share/.., a CI workspace, a temporary directory)
+            let hidden = base.join(".deploy").join("current");
+            let _ = std::fs::create_dir_all(&hidden);
+            let _ = std::fs::rename(&root, hidden.join("www"));
+            // (post-start-up mutations keep using the old name)
+            let _ = std::os::unix::fs::symlink(hidden.join("www"), &root);
+            hidden.join("www")
         }
         _ => root.clone(),
     };
